@@ -2,7 +2,7 @@
 """Evaluate seeded changes against the checks.
 
   tools/seed_eval.py import <worktree> <PID> [<prefix>]    copy <worktree>/mutants/m*/ into seeded/<PID>_<prefix>m*/
-  tools/seed_eval.py run [<seeded-id> ...] [--checks C01,C05] [--tests]
+  tools/seed_eval.py run <seeded-id> ... | all  [--checks C01,C05] [--tests]
 
 For every seeded change: apply patch.diff to a scratch copy of /repo (outside /repo and /verif, removed
 afterwards), confirm demo.py fails with the change and passes without it, optionally run the 66-test baseline,
@@ -117,6 +117,9 @@ def run_one(sid, extra_checks, with_tests):
 
 
 def main():
+    if len(sys.argv) < 2 or sys.argv[1] not in ("import", "run"):
+        print(__doc__)
+        sys.exit(0 if len(sys.argv) > 1 and sys.argv[1] in ("-h", "--help") else 2)
     if sys.argv[1] == "import":
         do_import(sys.argv[2], sys.argv[3], sys.argv[4] if len(sys.argv) > 4 else "")
         return
@@ -133,8 +136,11 @@ def main():
         else:
             ids.append(args[i])
             i += 1
-    if not ids:
+    if ids == ["all"]:
         ids = sorted(os.listdir(os.path.join(VERIF, "seeded")))
+    if not ids:
+        print("no ids given (use 'all' for every seeded change: > 1 h)")
+        sys.exit(2)
     try:
         for sid in ids:
             run_one(sid, extra, tests)
